@@ -447,3 +447,68 @@ Example close_examples :
    | DOk c' tr => tr = [T_HEADER] /\ d_pending c' = false
    | DRaise _ _ => False end).
 Proof. vm_compute. auto 10. Qed.
+
+(* ---------- the packet loop with the network-path table (round s05) *)
+From AQ Require model.ConnPaths proofs.ConnPathsP.
+
+Lemma dgram_loop_paths_total : forall fuel total c bs orcs all tr tab cur vs,
+  CodecProofs.bytes_ok bs -> dconn_ok c -> q_end (d_state c) = false -> d_pending c = false ->
+  incl orcs all -> ConnPathsP.tab_ok tab ->
+  match dgram_loop_paths fuel true total c bs orcs tr tab cur vs with
+  | (DOk c' _, ConnPaths.UOk tab' _) =>
+      dconn_ok c' /\ own_close_ok (po0 :: all) (c_close (d_st c')) /\ ConnPathsP.tab_ok tab'
+  | _ => False
+  end.
+Proof.
+  induction fuel as [|fuel IH]; intros total c bs orcs all tr tab cur vs Hb Hc Hq Hp Hi Ht.
+  - assert (Hn : c_close (d_st c) = None) by (destruct Hc as (_ & _ & G); auto).
+    destruct bs; cbn; (split; [exact Hc|split; [|exact Ht]]); intros code ft E; rewrite Hn in E; discriminate.
+  - assert (Hn : c_close (d_st c) = None) by (destruct Hc as (_ & _ & G); auto).
+    destruct bs as [|b0 bs'].
+    { cbn. split; [exact Hc|split; [|exact Ht]]. intros code ft E; rewrite Hn in E; discriminate. }
+    cbn [dgram_loop_paths]. cbv zeta.
+    pose proof (dgram_step_total total c (b0 :: bs') orcs all tr ltac:(discriminate) Hb Hc Hq Hp Hi) as HS.
+    set (first := negb (c_is_client (d_st c)) && q_first (d_state c)).
+    destruct (dgram_step true total c (b0 :: bs') orcs tr) as [[c' tr'|k tr']|c' next orcs' tr']; cbn [step_ok] in HS.
+    + set (tab0 := if first && processed tr tr' then [cur] else tab).
+      assert (Ht0 : ConnPathsP.tab_ok tab0).
+      { unfold tab0. destruct (first && processed tr tr'); [apply ConnPathsP.tab_ok_single | exact Ht]. }
+      destruct (handled tr tr').
+      * destruct (ConnPathsP.path_packet_total tab0 cur (verdict (hd vk0 vs) false) Ht0) as (tab' & cur' & -> & Hok' & _).
+        split; [apply HS|]. split; [apply HS|exact Hok'].
+      * split; [apply HS|]. split; [apply HS|exact Ht0].
+    + exact HS.
+    + set (tab0 := if first && processed tr tr' then [cur] else tab).
+      assert (Ht0 : ConnPathsP.tab_ok tab0).
+      { unfold tab0. destruct (first && processed tr tr'); [apply ConnPathsP.tab_ok_single | exact Ht]. }
+      destruct HS as (H1 & H2 & H3 & H4 & H5 & _).
+      destruct (handled tr tr').
+      * destruct (ConnPathsP.path_packet_total tab0 cur (verdict (hd vk0 vs) true) Ht0) as (tab' & cur' & -> & Hok' & _).
+        apply IH; auto.
+      * apply IH; auto.
+Qed.
+
+(* receive_datagram with the table inside: for all datagram bytes, all connection states with dconn_ok, all oracle answers,
+   all tables with tab_ok, all source addresses and all packet verdicts: neither the receive path nor the network-path
+   bookkeeping raises; both invariants hold again; a close decided by the call has a documented code *)
+Theorem receive_datagram_paths_total_all : forall c data orcs s addr vs,
+  CodecProofs.bytes_ok data -> dconn_ok c -> ConnPathsP.tab_ok (ConnPaths.ps_tab s) ->
+  match receive_datagram_paths true c data orcs s addr vs with
+  | (DOk c' _, ConnPaths.PROk s') =>
+      dconn_ok c' /\
+      (c_close (d_st c) = None -> own_close_ok (po0 :: orcs) (c_close (d_st c'))) /\
+      ConnPathsP.tab_ok (ConnPaths.ps_tab s')
+  | _ => False
+  end.
+Proof.
+  intros c data orcs s addr vs Hb Hc Ht. unfold receive_datagram_paths.
+  destruct (q_end (d_state c) || d_pending c) eqn:G.
+  - split; [exact Hc|]. split; [|exact Ht]. intros Hn code ft E. rewrite Hn in E. discriminate.
+  - apply orb_false_iff in G. destruct G as (Hq & Hp).
+    destruct (ConnPaths.find_network_path s addr) as [cur next].
+    pose proof (dgram_loop_paths_total (S (length data)) (Zlen data) c data orcs orcs [] (ConnPaths.ps_tab s) cur vs
+                  Hb Hc Hq Hp (incl_refl _) Ht) as H.
+    destruct (dgram_loop_paths (S (length data)) true (Zlen data) c data orcs [] (ConnPaths.ps_tab s) cur vs) as [r u].
+    destruct r as [c' tr'|k tr']; destruct u as [tab' cur'|k']; try contradiction.
+    destruct H as (H1 & H2 & H3). split; [exact H1|]. split; [intros _; exact H2 | exact H3].
+Qed.
